@@ -175,7 +175,7 @@ def grammar_items(ctx):
 
 
 # ---------------------------------------------------------------- the end-to-end target (Model/EndToEnd.v)
-E2E_HEADER = """From PV Require Import Model.EndToEnd Model.CaseUtil.
+E2E_HEADER = """From PV Require Import Model.EndToEnd Proofs.EndToEndReal Model.CaseUtil.
 Open Scope nat_scope.
 Definition tol : Q := (1#1000000000)%Q.
 Definition teqb (a b : list (list bool)) : bool := if teq a b then true else false.
@@ -183,6 +183,14 @@ Definition chk_e2e (alpha : Qc) (G nsamp : nat) (D : nat -> dpoint) (n : nat) (o
   qcclose tol (gam_fscrp alpha c_default G nsamp D n on t) lp1
   && qcclose tol (dens_marg alpha G nsamp D (forest_of_table n on t)) lp
   && teqb (tab n (frel (forest_of_table n on t))) t.
+(* the weight targets of the ACTUAL sampler along a retained path: exp(log_p + log_pdf) of every partial tree, exp(log_p_one +
+   log_pdf) of the complete one, against gt_real on the prefixes of the word that builds the final table along the order *)
+Fixpoint chk_prefixes (f : nat -> Qc) (k : nat) (vs : list Q) : bool :=
+  match vs with [] => true | v :: r => qcclose tol (f k) v && chk_prefixes f (S k) r end.
+Definition chk_real (alpha : Qc) (G nsamp : nat) (D : nat -> dpoint) (n : nat) (on : bool) (sg : list nat) (t : list (list bool)) (vs : list Q) : bool :=
+  let w := genc n on sg t in
+  Nat.eqb (length w) n && Nat.eqb (length vs) n
+  && chk_prefixes (fun k => gt_real n G nsamp alpha c_default D sg (rev (firstn k w))) 1 vs.
 """
 
 
@@ -214,4 +222,25 @@ def e2e_items(ctx):
             desc.append({"what": "end-to-end target", "n": n, "outliers": on, "samples": nsamp, "grid": G, "alpha": str(alpha), "state": spec})
             ctx.case(key=("e2e-target", gi, spec), nontrivial=n >= 2)
             ctx.count("e2e_target_npts=%d" % n)
+        # the actual weight targets along retained paths the real sampler rebuilds (orders drawn by the real permutation sampler)
+        import numpy as np
+        from phyclone.smc.samplers import ConditionalSMCSampler
+        from phyclone.smc.utils import RootPermutationDistribution
+        from ..trees import coq_nat_list, random_spec
+
+        if n >= 2:
+            for _ in range(3 if ctx.quick else 12):
+                spec = random_spec(ctx.rng, range(n), outlier_frac=0.3 if on else 0.0)
+                tree = build_tree(spec, data)
+                rng = np.random.default_rng(ctx.rng.randrange(10**9))
+                kern = make_kernel(ctx.rng.choice(["bootstrap", "semi-adapted", "fully-adapted"]), td, rng, 0.1 if on else 0.0, True)
+                sigma = RootPermutationDistribution.sample(tree, rng)
+                smp = ConditionalSMCSampler(tree, sigma, kern, num_particles=2, resample_threshold=0.5)
+                parts = smp.constrained_path[1:]
+                vs = [Fraction(math.exp(float(pt.log_p) + float(pt.log_pdf))) for pt in parts[:-1]] + [Fraction(math.exp(float(parts[-1].log_p_one) + float(parts[-1].log_pdf)))]
+                order = [int(dp.idx) for dp in sigma]
+                items.append("chk_real %s %d %d D%d %d %s %s %s [%s]" % (q(alpha), G, nsamp, gi, n, "true" if on else "false", coq_nat_list(order), coq_table(spec_table(spec, n)), "; ".join(qq(v) for v in vs)))
+                desc.append({"what": "actual weight targets along a retained path", "n": n, "outliers": on, "state": spec, "order": order})
+                ctx.case(key=("e2e-real-weights", gi, spec, tuple(order)), nontrivial=True)
+                ctx.count("e2e_real_weight_paths")
     return header, items, desc
